@@ -191,3 +191,87 @@ func (e *Eng) modeFlag() {
 	}
 	e.add("mode#flag-follows-argument", funcKey(fn), props, len(bad) == 0, detail)
 }
+
+// copyModePassed: every string the stage-2 machine parses is parsed in the configured string mode: each parseString
+// call in unifiedMachine receives pj.copyStrings (read from the parser object, not a constant) as its copy argument.
+// One call site with the mode hard-wired makes some strings (say, every key after the first) reference the caller's
+// buffer although copying was asked for - visible only after the input is overwritten.
+func (e *Eng) copyModePassed() {
+	props := []string{"C16"}
+	name := "stage2#copy-mode-passed-to-every-string"
+	fn := e.fn("(*internalParsedJson).unifiedMachine")
+	if fn == nil {
+		return
+	}
+	var bad []string
+	n := 0
+	for _, p := range find(fn, isCall("parseString")) {
+		c := p.b.Instrs[p.i].(*ssa.Call)
+		n++
+		a := c.Call.Args[len(c.Call.Args)-1]
+		if fieldNameOf(a) != "copyStrings" {
+			bad = append(bad, e.pos(c)+": parseString is not given pj.copyStrings as its copy argument")
+		}
+	}
+	if n == 0 {
+		bad = append(bad, "no parseString call found in the stage-2 machine")
+	}
+	detail := fmt.Sprintf("%d parseString calls, each with pj.copyStrings", n)
+	if len(bad) > 0 {
+		detail = strings.Join(bad, "; ")
+	}
+	e.add(name, funcKey(fn), props, len(bad) == 0, detail)
+}
+
+// doneReportsTerminator: the second result of the stage-2 machine tells the caller whether the end-of-stream marker
+// of the index channel has been consumed (the caller drains the channel exactly when it has not). At every return it
+// is the flag most recently handed back by updateChar - never a constant. A constant false after the marker was
+// consumed makes the concurrent path wait for a marker that will never come (Parse hangs on large rejected inputs);
+// a constant true leaves entries in the channel for the next parse.
+func (e *Eng) doneReportsTerminator() {
+	props := []string{"C05", "C07"}
+	name := "stage2#done-is-updateChar-flag"
+	fn := e.fn("(*internalParsedJson).unifiedMachine")
+	if fn == nil {
+		return
+	}
+	var bad []string
+	n := 0
+	var leafOK func(v ssa.Value, seen map[ssa.Value]bool) bool
+	leafOK = func(v ssa.Value, seen map[ssa.Value]bool) bool {
+		if seen[v] {
+			return true
+		}
+		seen[v] = true
+		switch x := v.(type) {
+		case *ssa.Phi:
+			for _, ed := range x.Edges {
+				if !leafOK(ed, seen) {
+					return false
+				}
+			}
+			return true
+		case *ssa.Extract:
+			if c, ok := x.Tuple.(*ssa.Call); ok && x.Index == 0 {
+				n := calleeName(&c.Call)
+				return n == "updateChar" || n == "updateCharDebug"
+			}
+		}
+		return false
+	}
+	for _, b := range fn.Blocks {
+		ret, ok := b.Instrs[len(b.Instrs)-1].(*ssa.Return)
+		if !ok || len(ret.Results) != 2 {
+			continue
+		}
+		n++
+		if !leafOK(ret.Results[1], map[ssa.Value]bool{}) {
+			bad = append(bad, e.pos(ret)+": the done result is not the flag handed back by updateChar")
+		}
+	}
+	detail := fmt.Sprintf("%d returns, each reports updateChar's end-of-stream flag", n)
+	if len(bad) > 0 {
+		detail = strings.Join(bad, "; ")
+	}
+	e.add(name, funcKey(fn), props, len(bad) == 0 && n > 0, detail)
+}
